@@ -240,8 +240,16 @@ impl Task {
 
         instrument!(compio_log::Level::TRACE,"Task::cancel", id = ?header.id, drop_result);
 
-        self.schedule();
+        // Mark first, schedule afterwards: the run that this schedules has to
+        // see the mark, because it is the one that drops the future. The
+        // other way round the executor could run the task in between, poll it
+        // as usual and leave it parked, cancelled but alive, until an
+        // unrelated wake-up or the end of the executor.
         let state = header.state.set_cancelled();
+        match self.view() {
+            Ok(local) => local.schedule(),
+            Err(remote) => remote.schedule_cancelled(),
+        }
         if drop_result && state.has_result() {
             header.state.set_has_result::<Strong, false>();
             unsafe { (header.vtable.drop_future)(self.0, true) }
@@ -329,9 +337,13 @@ impl Task {
             header.tracker.valid(),
             "drop should only be called by Executor"
         );
-        let state = header.state.set_dropped();
-
+        // Null the pointer before marking the task: a foreign thread whose
+        // `start_scheduling` comes after the mark synchronizes with it and is
+        // then guaranteed to see the null pointer, whether or not it looks at
+        // the mark (see `Remote::schedule_with`).
         header.shared.store(ptr::null_mut(), Release);
+
+        let state = header.state.set_dropped();
 
         // Dropping the future/result and waker during unwinding on unwind-unsafe
         // types could trigger a second panic. Skip content drops if already panicking.
